@@ -5,6 +5,7 @@ import (
 	"go/token"
 	"go/types"
 	"math/big"
+	"regexp"
 	"sort"
 	"strings"
 
@@ -92,6 +93,7 @@ func checkC09(r *core.Run) {
 	// the block weight accumulated while decoding (shared with C05)
 	c05Weight(r, p, "R-C09-bounds")
 	c09Witness(r, p)
+	c09MarkerFlag(r, p)
 	c09Sizes(r, p, ba)
 }
 
@@ -210,7 +212,7 @@ func c09Canon(r *core.Run, p *core.Program, ba *an.BoundsAnalysis) {
 // c09Witness: a witness-flagged transaction whose witness stacks are all empty is refused.
 func c09Witness(r *core.Run, p *core.Program) {
 	const rule = "R-C09-witness"
-	r.Rule(rule, "NewTx rejects a marker/flag transaction in which no input has a witness: a flag that is set only under 'witness item count > 0' is tested after the witness section, its false edge returns nil, and no path from the witness section reaches an accepting return around that test")
+	r.Rule(rule, "NewTx rejects a marker/flag transaction in which no input has a witness: a flag that is set only under 'witness item count > 0' is tested after the witness section, its false edge returns nil, and no path from the witness section reaches an accepting return around that test; the extended format itself is recognised, by the decoder and the size scanner alike, only by marker byte 0x00 followed by flag byte 0x01")
 	fn := p.Func("lib/btc.NewTx")
 	if fn == nil {
 		r.Undecided("NewTx not found")
@@ -518,4 +520,49 @@ func c09WriterRanges(r *core.Run, p *core.Program) {
 				"marker bytes per range are "+strings.Join(marks, "|")+" instead of "+strings.Join(wantM, "|"))
 		}
 	}
+}
+
+// c09MarkerFlag: the extended (BIP144) transaction format is announced by the two bytes 00 01 right after
+// the version: marker 0x00 (an empty input list is impossible) and flag exactly 0x01 - other flag values
+// are not a transaction at all.  The decoder and the size scanner are twins and must apply the same test:
+// in both, the only byte tests made at the marker position o and at o+1 are "== 0" resp. "== 1".
+func c09MarkerFlag(r *core.Run, p *core.Program) {
+	const rule = "R-C09-witness"
+	re := regexp.MustCompile(`^\(param#0\[(.+)\] (==|!=|<|<=|>|>=) (\d+)\)$`)
+	var sigs []string
+	for _, name := range []string{"lib/btc.NewTx", "lib/btc.TxSize"} {
+		fn := p.Func(name)
+		if fn == nil {
+			r.Fail(rule, "marker-flag/"+name, "-", name+" not found")
+			return
+		}
+		tests := map[string]bool{}
+		for _, b := range fn.Blocks {
+			iff, ok := b.Instrs[len(b.Instrs)-1].(*ssa.If)
+			if !ok {
+				continue
+			}
+			m := re.FindStringSubmatch(an.Expr(iff.Cond))
+			if m == nil {
+				continue
+			}
+			op := m[2]
+			if op == "!=" {
+				op = "=="
+			}
+			tests[m[1]+" "+op+" "+m[3]] = true
+		}
+		var base string
+		for t := range tests {
+			if strings.HasSuffix(t, " == 0") && !strings.HasPrefix(t, "(") {
+				base = strings.TrimSuffix(t, " == 0")
+			}
+		}
+		want := map[string]bool{base + " == 0": true, "(" + base + " + 1) == 1": true}
+		okT := base != "" && an.TagList(tests) == an.TagList(want)
+		r.Check(okT, rule, "marker-flag/"+name, p.Pos(fn.Pos()), "marker byte == 0 and flag byte == 1 are the only tests at the marker position",
+			"the extended format is recognised by the byte tests {"+an.TagList(tests)+"} instead of marker == 0 and flag == 1")
+		sigs = append(sigs, strings.ReplaceAll(an.TagList(tests), base, "o"))
+	}
+	r.Check(len(sigs) == 2 && sigs[0] == sigs[1], rule, "marker-flag/twins-agree", "-", "NewTx and TxSize apply the same marker/flag test", "NewTx and TxSize disagree on the marker/flag test: "+strings.Join(sigs, " vs "))
 }
